@@ -17,5 +17,6 @@ CONSTANTS
   MaxReaderOpens = 0
   AllowClose = FALSE
   TraceFile = "trace.ndjson"
+  AbsPrefix <- MemoAbsPrefix
 POSTCONDITION TraceAccepted
 CHECK_DEADLOCK FALSE
